@@ -2,7 +2,9 @@
 reproducible from the seed"): several S3 cassettes with a size-based calculator living in one process.  Every
 cassette saves a prefix of one master sequence of payload sizes, so two cassettes must take the same decisions on
 their common prefix whatever else happened in the process (another cassette created before, saving in between, other
-content of the same size band).  Used by props/c17.py (kind "s3hist") and impl/s3sample_driver.py."""
+content of the same size band).  Cassettes are fed directly (recordings saved straight on the cassette) or THROUGH a
+real TapeRecorder whose operations return / raise / are interrupted: the storage-level decision may not look at the outcome
+the recorder wrote into the metadata.  Used by props/c17.py (kind "s3hist") and impl/s3sample_driver.py."""
 import random
 from fractions import Fraction
 
@@ -18,6 +20,17 @@ RATIO_SETS = [
     [[1, 4], [1, 1], [1, 2], [7, 8]],
 ]
 SCHEDULES = ["sequential", "roundrobin", "interposed", "random"]
+# histories fed THROUGH a TapeRecorder (operations that return / raise / are interrupted): the recorder's own metadata
+# (operation class, exception flag, duration) makes the recordings larger, hence other size bands; the first two sets give
+# every size the same ratio, so that histories with different outcomes (= slightly different sizes) stay comparable
+REC_LIMITS = [350, 800, 1800, None]       # compressed sizes through the recorder: ~180-265 / 460-560 / 1030-1135 / 2480-2590
+REC_RATIO_SETS = [
+    [[1, 2], [1, 2], [1, 2], [1, 2]],
+    [[0, 1], [0, 1], [0, 1], [0, 1]],               # a calculated rate of 0 stores nothing, whatever the operation did
+    [[1, 1], [3, 5], [1, 4], [0, 1]],
+    [TENTH, [3, 4], [3, 2], [1, 4]],
+]
+OUTCOMES = ["return", "raise", "interrupt"]
 
 
 def schedule(kind, ns, rng):
@@ -60,6 +73,23 @@ def generate(rng, tier):
                 cases.append(dict(kind="s3hist", bands=[[lim, r] for lim, r in zip(LIMITS, ratios)], master=master,
                                   cassettes=cassettes, schedule_kind=kind,
                                   schedule=schedule(kind, [c["n"] for c in cassettes], rng)))
+    # cassettes fed through a TapeRecorder: cassette 0 records operations that all return, the others the same master
+    # sequence with outcomes drawn per operation (and, for a twin, other content); one is fed directly for comparison
+    for rep in range(reps):
+        for k, ratios in enumerate(REC_RATIO_SETS):
+            kind = SCHEDULES[(k + rep) % len(SCHEDULES)]
+            master = [rng.choice(LENGTHS) for _ in range(n_master)]
+            cassettes = [dict(n=n_master, twin=False, share_bucket=False, via="recorder", outcomes=["return"]),
+                         dict(n=n_master, twin=False, share_bucket=k % 2 == 0, via="recorder",
+                              outcomes=[rng.choice(OUTCOMES) for _ in range(n_master)])]
+            if kind != "interposed":
+                cassettes.append(dict(n=n_master // 2, twin=True, share_bucket=False, via="recorder",
+                                      outcomes=[rng.choice(OUTCOMES) for _ in range(n_master // 2)]))
+            if cassettes[1]["share_bucket"]:
+                cassettes[0]["share_bucket"] = True
+            cases.append(dict(kind="s3hist", bands=[[lim, r] for lim, r in zip(REC_LIMITS, ratios)], master=master,
+                              cassettes=cassettes, schedule_kind=kind, fed="recorder",
+                              schedule=schedule(kind, [c["n"] for c in cassettes], rng)))
     # a single cassette alone in its history (the shape a one-cassette process has)
     master = [rng.choice(LENGTHS) for _ in range(n_master)]
     cases.append(dict(kind="s3hist", bands=[[lim, r] for lim, r in zip(LIMITS, RATIO_SETS[0])], master=master,
@@ -76,10 +106,12 @@ def direct(case, obs):
     fails = []
     cass = obs["cassettes"]
     for i, saves in enumerate(cass):
+        outs = case["cassettes"][i].get("outcomes")
         for pos, s in enumerate(saves):
+            how = " (recording made by a TapeRecorder, the operation's outcome: %s)" % outs[pos % len(outs)] if outs else ""
             if s["calc_calls"] != 1 or s["ratio"] is None:
-                fails.append(("s3-calculator-calls", "cassette %d save %d: the sampling calculator was called %d times for one "
-                              "save" % (i, pos, s["calc_calls"])))
+                fails.append(("s3-calculator-calls", "cassette %d save %d%s: the sampling calculator was called %d times for "
+                              "one save (stored=%s)" % (i, pos, how, s["calc_calls"], s["kept"])))
                 break
             r = Fraction(*s["ratio"])
             if r >= 1 and not s["kept"]:
@@ -101,10 +133,12 @@ def direct(case, obs):
     for i in range(1, len(cass)):
         twin = case["cassettes"][i].get("twin")
         for pos, (a, b) in enumerate(zip(ref, cass[i])):
-            if a["ratio"] != b["ratio"]:
+            if a["ratio"] != b["ratio"] and None not in (a["ratio"], b["ratio"]):
                 break                  # (the twin's content landed in another size band: no longer the same history)
             if a["kept"] != b["kept"]:
-                sig = "s3-depends-on-content" if twin else "s3-not-reproducible"
+                oa, ob = (case["cassettes"][j].get("outcomes") or ["return"] for j in (0, i))
+                differ = any(oa[q % len(oa)] != ob[q % len(ob)] for q in range(pos + 1))
+                sig = "s3-depends-on-content" if twin else "s3-depends-on-outcome" if differ else "s3-not-reproducible"
                 fails.append((sig, "two S3 cassettes with the same calculator and the same sequence of sampling ratios (%s "
                               "schedule%s): save %d (ratio %s) stored=%s on cassette 0 and stored=%s on cassette %d - the "
                               "decisions are not a function of the cassette's own seeded history" %
@@ -133,6 +167,11 @@ def features(case):
         fs.add("s3hist:same-bucket-other-prefix")
     if any(c["n"] < case["cassettes"][0]["n"] for c in case["cassettes"]):
         fs.add("s3hist:shorter-history")
+    for c in case["cassettes"]:
+        if c.get("via") == "recorder":
+            fs.add("s3hist:fed-through-TapeRecorder")
+            for o in set(c.get("outcomes") or []):
+                fs.add("s3hist:operation-outcome=" + o)
     return fs
 
 
